@@ -697,6 +697,9 @@ pub fn run(cfg: &Config, s: &mut Session) {
     crate::glyfhostile::run(cfg, &mut ex);
     s.notes.push(format!("hostile glyf family: {:.1}s", t1.elapsed().as_secs_f64()));
     let t1 = std::time::Instant::now();
+    crate::psweep::run(cfg, &mut ex, &fonts);
+    s.notes.push(format!("postscript operand sweeps: {:.1}s", t1.elapsed().as_secs_f64()));
+    let t1 = std::time::Instant::now();
     crate::ift::run(cfg, &mut ex);
     s.notes.push(format!("IFT families: {:.1}s", t1.elapsed().as_secs_f64()));
     let t1 = std::time::Instant::now();
@@ -706,6 +709,9 @@ pub fn run(cfg: &Config, s: &mut Session) {
     // their mutants reach the subsetter
     let field_corpus: Vec<(String, Vec<u8>)> = fonts.iter().map(|(n, b)| match with_cmap(b) { Some(b2) => (format!("{n}+cmap"), b2), None => (n.clone(), b.clone()) }).collect();
     let note = crate::fields::run(cfg, &mut ex, &field_corpus, &synth_fonts);
+    s.notes.push(format!("{note} ({:.1}s)", t1.elapsed().as_secs_f64()));
+    let t1 = std::time::Instant::now();
+    let note = crate::fields::enum_geometry(cfg, &mut ex, &field_corpus);
     s.notes.push(format!("{note} ({:.1}s)", t1.elapsed().as_secs_f64()));
     let (ops, other) = (ex.ops, ex.other_panics);
     let notes = std::mem::take(&mut ex.notes);
